@@ -1,2 +1,103 @@
--- line-protocol model driver for C14 (stub)
-def main : IO Unit := IO.println "stub C14"
+/- Line-protocol model driver for C14 (arithmetic on numbers and 64-bit integers).  Protocol: see harness/C14/arith.c.
+     <fn> <operand> [<operand>]        fn = + - * / div mod % band bor bxor blshift brshift brushift bnot
+                                            < <= > >= = not= compare cmp int/s64 int/u64 int/to-number
+     imm <fn> <operand> <int>          same meaning as `<fn> <operand> n:<int>` (immediate opcodes)
+     cmpsd <int> <hex16>               compare_int64_double       -> i:<r> | ub
+     cmpud <nat> <hex16>               compare_uint64_double      -> i:<r> | ub
+   IEEE arithmetic on two plain numbers is delegated to Lean's `Float` (hardware), `fmod` is computed exactly. -/
+import Driver.Util
+import JanetModel.Int64.Model
+open Driver JanetModel.Int64
+
+def fl (b : Nat) : Float := Float.ofBits b.toUInt64
+def bitsOf (f : Float) : Nat := f.toBits.toNat
+def nanBits : Nat := 0x7ff8000000000000
+
+/-- C `fmod`, exact -/
+def fmodBits (a b : Nat) : Nat :=
+  match decode a, decode b with
+  | .nan, _ => nanBits
+  | _, .nan => nanBits
+  | .inf _, _ => nanBits
+  | .fin .., .inf _ => a
+  | .fin nx mx ex, .fin _ my ey =>
+    if my = 0 then nanBits
+    else if mx = 0 then a
+    else
+      let e := min ex ey
+      let X := mx * 2 ^ (ex - e).toNat
+      let Y := my * 2 ^ (ey - e).toNat
+      encodeDyadic nx (X % Y) e
+
+def numOps : NumOps where
+  arith := fun op a b =>
+    let x := fl a
+    let y := fl b
+    match op with
+    | "+" => bitsOf (x + y)
+    | "-" => bitsOf (x - y)
+    | "*" => bitsOf (x * y)
+    | "/" => bitsOf (x / y)
+    | "div" => bitsOf (Float.floor (x / y))
+    | "mod" => if y == 0 then a else bitsOf (x - y * Float.floor (x / y))
+    | "%" => fmodBits a b
+    | _ => nanBits
+
+def hex16 (n : Nat) : String :=
+  String.ofList ((List.range 16).reverse.map (fun i => hexDigit (n / 16 ^ i % 16)))
+
+def parseHex (s : String) : Option Nat :=
+  s.toList.foldl (fun acc c => match acc, hexVal c with | some a, some d => some (a * 16 + d) | _, _ => none) (some 0)
+
+def parseOperand (s : String) : Option Val :=
+  match s.toList with
+  | 'n' :: ':' :: rest => (parseHex (String.ofList rest)).map Val.num
+  | 's' :: ':' :: rest => (String.ofList rest).toInt?.map Val.s64
+  | 'u' :: ':' :: rest => (String.ofList rest).toInt?.map Val.u64
+  | 't' :: ':' :: rest => some (Val.str (rest.map Char.toNat))
+  | _ => none
+
+def showVal : Val → String
+  | .num b => if decode b == .nan then "n:nan" else "n:" ++ hex16 b
+  | .s64 v => s!"s:{v}"
+  | .u64 v => s!"u:{v}"
+  | .bool b => if b then "b:1" else "b:0"
+  | .nil => "nil"
+  | .unspec => "unspec"
+  | .str _ => "other"
+
+def showRes : Res Val → String
+  | .ok v => showVal v
+  | .err e => "err:" ++ e.name
+  | .ub => "ub"
+
+def showInt : Res Int → String
+  | .ok v => s!"i:{v}"
+  | .err e => "err:" ++ e.name
+  | .ub => "ub"
+
+def step (_ : Unit) (toks : List String) : Unit × String :=
+  match toks with
+  | ["cmpsd", x, h] =>
+    (match x.toInt?, parseHex h with
+     | some xv, some b => ((), showInt (compareInt64Double cfgGen xv (decode b)))
+     | _, _ => ((), "bad-op"))
+  | ["cmpud", x, h] =>
+    (match x.toInt?, parseHex h with
+     | some xv, some b => ((), showInt (compareUint64Double cfgGen xv (decode b)))
+     | _, _ => ((), "bad-op"))
+  | ["imm", fn, a, k] =>
+    (match parseOperand a, k.toInt? with
+     | some av, some kv => ((), showRes (evalFn cfgGen numOps fn [av, Val.ofInt kv]))
+     | _, _ => ((), "bad-op"))
+  | [fn, a] =>
+    (match parseOperand a with
+     | some av => ((), showRes (evalFn cfgGen numOps fn [av]))
+     | none => ((), "bad-op"))
+  | [fn, a, b] =>
+    (match parseOperand a, parseOperand b with
+     | some av, some bv => ((), showRes (evalFn cfgGen numOps fn [av, bv]))
+     | _, _ => ((), "bad-op"))
+  | _ => ((), "bad-op")
+
+def main : IO Unit := runLoop () step
